@@ -279,7 +279,8 @@ func genC17(r *rng, thorough bool, emit func(FlowScenario)) {
 
 func genC18(r *rng, thorough bool, emit func(FlowScenario)) {
 	t := &tokGen{r: r}
-	for _, k := range leafKinds() {
+	// … including nodes whose BaseNode is the zero value (never went through NewBaseNode): cancellation-free runs only
+	for _, k := range append(leafKinds(), zeroBaseKinds()...) {
 		for pk, post := range []string{"=", "=default", "=custom", "= ", "=\n\t"} {
 			_ = pk
 			cfg := k
